@@ -2,10 +2,11 @@ package main
 
 import (
 	"bytes"
-	"strings"
 	"fmt"
+	"strings"
 
 	pipeline "github.com/buildkite/go-pipeline"
+	"github.com/buildkite/go-pipeline/ordered"
 	"verifharness/sx"
 )
 
@@ -434,6 +435,70 @@ func c14different(g *docgen, c c14case) []c14case {
 	return out
 }
 
+// c14orderedProbe: the ordered map {a: 1, b: {x: y}, c: [1]} built in one go, or through insertions, deletions
+// and renames that leave the same content
+func c14orderedProbe(history bool) *ordered.MapSA {
+	inner := ordered.NewMap[string, any](0)
+	inner.Set("x", "y")
+	m := ordered.NewMap[string, any](0)
+	if !history {
+		m.Set("a", 1)
+		m.Set("b", inner)
+		m.Set("c", []any{1})
+		return m
+	}
+	m.Set("a", 1)
+	m.Set("gone", true)
+	m.Set("b", inner)
+	m.Set("old_c", []any{1})
+	m.Set("c", "overwritten by the rename")
+	m.Delete("gone")
+	m.Replace("old_c", "c", []any{1})
+	return m
+}
+
+// c14withHistory copies a value; with history, every ordered map in it is rebuilt with an entry that is then deleted
+func c14withHistory(v any, history bool, n *int) any {
+	switch x := v.(type) {
+	case *ordered.MapSA:
+		if x == nil {
+			return x
+		}
+		m := ordered.NewMap[string, any](0)
+		if history {
+			m.Set("zz_gone", true)
+		}
+		x.Range(func(k string, e any) error {
+			m.Set(k, c14withHistory(e, history, n))
+			return nil
+		})
+		if history {
+			m.Delete("zz_gone")
+			*n++
+		}
+		return m
+	case []any:
+		if x == nil {
+			return x
+		}
+		l := make([]any, len(x))
+		for i, e := range x {
+			l[i] = c14withHistory(e, history, n)
+		}
+		return l
+	case map[string]any:
+		if x == nil {
+			return x
+		}
+		m := make(map[string]any, len(x))
+		for k, e := range x {
+			m[k] = c14withHistory(e, history, n)
+		}
+		return m
+	}
+	return v
+}
+
 func sprintDv(d *dv) (string, bool) {
 	switch d.kind {
 	case 's':
@@ -489,6 +554,10 @@ func init() {
 				pShared, _, b1 := c14payload(noEnv, key) // ... then a step without one, with the same map
 				noEnv.penv = fresh
 				pFresh, _, b2 := c14payload(noEnv, key)
+				if b1 != b2 {
+					oracleFail("C14", "payload-depends-on-history", cs, fmt.Sprintf("the same step, env and repository can or cannot be signed depending on what was signed before with the same env map: %q / %q", b2, b1))
+					continue
+				}
 				if b1 == "" && b2 == "" && !bytes.Equal(pShared, pFresh) {
 					oracleFail("C14", "payload-depends-on-history", cs, fmt.Sprintf("the same step, env and repository give different payloads depending on what was signed before with the same env map:\n%s\n%s", pFresh, pShared))
 					continue
@@ -612,11 +681,66 @@ func init() {
 				}
 				_, pOrig, e1 := signPayload(key, st, c.repo, c.penv)
 				_, pFlip, e2 := signPayload(key, &f, c.repo, c.penv)
-				if e1 == nil && e2 == nil {
+				if (e1 == nil) != (e2 == nil) {
+					oracleFail("C14", "nil-empty-differs", cs, fmt.Sprintf("flipping nil and empty containers of the step changes whether it can be signed: %v / %v", e1, e2))
+				} else if e1 == nil {
 					if !bytes.Equal(pOrig, pFlip) {
 						oracleFail("C14", "nil-empty-differs", cs, fmt.Sprintf("flipping nil and empty containers of the step changes the payload:\n%s\n%s", pOrig, pFlip))
 					}
 					stat("C14", "nil-empty-flips")
+				}
+			}
+			// ordered maps inside signed fields (what parsing leaves under unknown matrix keys, what an API user may
+			// put in a plugin config): their content is signed, not the edits that produced it
+			if st, _, err := stepFromDoc(c.doc); err == nil {
+				mk := func(history bool) *pipeline.CommandStep {
+					nmaps := 0
+					a := *st
+					probe := c14orderedProbe(history)
+					if st.Matrix != nil {
+						m := *st.Matrix
+						m.RemainingFields = map[string]any{}
+						for k, v := range st.Matrix.RemainingFields {
+							m.RemainingFields[k] = c14withHistory(v, history, &nmaps)
+						}
+						m.RemainingFields["zz_probe"] = probe
+						m.Adjustments = nil
+						for _, ad := range st.Matrix.Adjustments {
+							if ad == nil {
+								m.Adjustments = append(m.Adjustments, nil)
+								continue
+							}
+							na := *ad
+							na.Skip = c14withHistory(ad.Skip, history, &nmaps)
+							if ad.RemainingFields != nil {
+								na.RemainingFields = map[string]any{}
+								for k, v := range ad.RemainingFields {
+									na.RemainingFields[k] = c14withHistory(v, history, &nmaps)
+								}
+							}
+							m.Adjustments = append(m.Adjustments, &na)
+						}
+						a.Matrix = &m
+					}
+					pl := make(pipeline.Plugins, 0, len(st.Plugins)+1)
+					for _, p0 := range st.Plugins {
+						cp := *p0
+						cp.Config = c14withHistory(p0.Config, history, &nmaps)
+						pl = append(pl, &cp)
+					}
+					pl = append(pl, &pipeline.Plugin{Source: "zz-probe#v1", Config: probe})
+					a.Plugins = pl
+					return &a
+				}
+				_, pa, ea := signPayload(key, mk(false), c.repo, c.penv)
+				_, pb, eb := signPayload(key, mk(true), c.repo, c.penv)
+				if (ea == nil) != (eb == nil) {
+					oracleFail("C14", "payload-depends-on-edit-history", cs, fmt.Sprintf("two steps whose signed fields hold equal ordered maps, built by different edits: signing one gives %v, the other %v", ea, eb))
+				} else if ea == nil {
+					if !bytes.Equal(pa, pb) {
+						oracleFail("C14", "payload-depends-on-edit-history", cs, fmt.Sprintf("two steps whose signed fields hold equal ordered maps, built by different edits, give different payloads:\n%s\n%s", pa, pb))
+					}
+					stat("C14", "edit-history-pairs")
 				}
 			}
 			// a different algorithm name gives a different payload
